@@ -15,6 +15,7 @@ for s in sorted(os.listdir(S)):
             if line.startswith("#"):
                 title = re.sub(r"^#+\s*(C\d\d\s*/\s*)?(mutation\s*\d+|m\d+)\s*[-—–:]*\s*", "", line.strip(), flags=re.I)
                 break
+    title = meta.get("title", title)   # an explicit title in meta.json wins over the README heading
     if meta.get("status") == "retired":
         res = "retired — " + meta.get("retired_reason", "")[:160] + "…"
     else:
